@@ -551,3 +551,407 @@ def gen_c05():
         for ws in WIDTHS:
             add_rt("c05_report", "e%d_s%d" % (we, ws), "c05_report(%d, %d" % (we, ws),
                    varid_enc(we) + varid_enc(ws) + [S, S, S])
+
+
+# ---------------------------------------------------------------------------------------------- C06
+def dgram(fss, pw, pc, crc=False, filedata=False, seg=False, we=1, ws=1):
+    """(wire, canon) of a whole datagram from payload templates (pc None: expected malformed)."""
+    tail = [S, S] if crc else []
+    w = header(we, ws, len(pw), crc, fss, filedata, seg) + pw + tail
+    c = None if pc is None else header(we, ws, len(pc), crc, fss, filedata, seg) + pc + tail
+    return w, c
+
+
+HL = 7   # header length with 1-octet identifiers
+
+
+def add_pdu(fam, name, fss, pw, pc, guards=(), tier="quick", **kw):
+    w, c = dgram(fss, pw, pc, **kw)
+    if len(w) > 64:
+        return
+    add_dec(fam, name + "_" + fl(fss), "Pdu", w, c, guards, tier=tier)
+
+
+def add_trunc(fam, name, fss, pw, tier="quick", crc=False, accept=True, **kw):
+    w, _ = dgram(fss, pw, pw, crc=crc, **kw)
+    if len(w) > 64:
+        return
+    K = len(w)
+    call = "checks::c06_pdu_trunc(%s, %d, %s, b)" % (rs_tpl(w), HL, "true" if crc else "false")
+    add(fam, name + "_" + fl(fss), K, call, unwind_for(K), accept, tier)
+
+
+def add_free(fam, name, dec, n, trunc=True, accept=True, tier="quick", unwind=10):
+    K = n + (1 if trunc else 0)
+    call = "checks::c06_free(Dec::%s, %d, %s, b)" % (dec, n, "true" if trunc else "false")
+    add(fam, name, K, call, unwind, accept, tier)
+
+
+def gen_c06():
+    family("c06_arith", "C06", "complete", "",
+           "all-octets-free no-panic proofs of the leaf decoders whose arithmetic depends on an "
+           "input octet: PDUHeader::decode over 28 free octets (all 2^16 length values x CRC flag x "
+           "every first/fourth octet x every identifier), VariableID::decode and "
+           "read_length_value_pair over a free length octet + 256 free octets, "
+           "SegmentedFileData::decode over a free first octet + 63 + 8 + 1 octets, "
+           "TransmissionMode / FaultHandlerOverride / SegmentRequestForm over all octets; each also "
+           "for every truncation (symbolic cut)")
+    add_free("c06_arith", "hdr_all", "Header", 28)
+    add_free("c06_arith", "varid_all", "VarId", 257)
+    add_free("c06_arith", "lv_all", "Lv", 256)
+    add_free("c06_arith", "tmode_all", "TMode", 1)
+    add_free("c06_arith", "fho_all", "Fho", 1)
+    for fss in FSS:
+        add_free("c06_arith", "segdata_first_" + fl(fss), "Payload(true, %s, true)" % fs(fss),
+                 1 + 63 + fsz(fss) + 1)
+        add_free("c06_arith", "unseg_" + fl(fss), "Payload(true, %s, false)" % fs(fss),
+                 fsz(fss) + 2)
+        add_free("c06_arith", "segreq_" + fl(fss), "SegReq(%s)" % fs(fss), 2 * fsz(fss))
+
+    # ---- per-type decoders -------------------------------------------------------------------
+    family("c06_types", "C06", "bounded",
+           "type / length octets enumerated (string and body lengths in {0,1,2}, identifier "
+           "widths 1,2,4,8), all value octets free; plus all-free inputs of 4..8 octets for the "
+           "flat decoders",
+           "public per-type decoders: UserOperation (all 27 message types + unknown), MetadataTLV, "
+           "FileStoreRequest, FileStoreResponse, FaultHandlerOverride, FlowLabel, MessageToUser, "
+           "VariableID, Report, PDUHeader: never panic, and what they accept is canonical")
+    T = "c06_types"
+    # user operations, exact shapes (free, i.e. possibly non-UTF-8, name octets)
+    uos = []
+    for k in ("OrigTx", "RespStatus", "RespResume", "RespSuspend", "ReqSuspend", "ReqResume"):
+        uos += [(k, 1, 1), (k, 2, 4), (k, 8, 8), (k, 4, 1)]
+    uos += [("ReqStatus", 1, 1, 0), ("ReqStatus", 2, 8, 2), ("ReqStatus", 4, 4, 1)]
+    uos += [("ProxyPut", w, 1, 2) for w in WIDTHS] + [("ProxyPut", 1, 0, 0)]
+    for k in ("ProxyMsg", "ProxyFlow", "SfoMsg", "SfoFlow"):
+        uos += [(k, n) for n in L_Q]
+    uos += [(k,) for k in ("ProxyFho", "ProxyTm", "ProxySegCtrl", "ProxyPutCancel",
+                            "RespProxyPut", "SfoFho")]
+    for k in ("ProxyFsReq", "SfoFsReq", "RespDirList", "ReqDirList"):
+        uos += [(k, 0, 0), (k, 1, 2), (k, 2, 1)]
+    for k in ("RespFs", "SfoFsResp"):
+        uos += [(k, 0, 0, 0), (k, 1, 2, 0), (k, 2, 0, 2)]
+    uos += [("SfoReport", 0, 1, 1, 1), ("SfoReport", 2, 2, 4, 8), ("SfoReport", 1, 8, 8, 8)]
+    uos += [("SfoRequest", 0, 1, 1, 0, 0), ("SfoRequest", 1, 2, 4, 1, 1), ("SfoRequest", 2, 8, 8, 0, 1)]
+    for u in uos:
+        # SFORequest can only be compared with the derived (path component) equality: ASCII names
+        w, c = userop(u, A if u[0] == "SfoRequest" else S)
+        add_dec(T, "uo_" + uo_name(u), "UserOp", w, c)
+    pre = [C(0x63), C(0x66), C(0x64), C(0x70)]
+    # malformed: unknown / unsupported message types, bad identifier widths, inner length octets
+    # that exceed the body, wrong reserved identifier
+    for mt in (0x0B, 0x0C, 0x12, 0x47, 0xFF):
+        add_dec(T, "uo_badtype_%02x" % mt, "UserOp", pre + [C(mt), S, S], None)
+    for (we, ws) in ((3, 1), (1, 5), (7, 6)):
+        add_dec(T, "uo_origtx_badwidth_%d_%d" % (we, ws), "UserOp",
+                pre + [C(0x0A), C(((we - 1) << 4) | (ws - 1))] + [S] * (we + ws), None)
+    for w in (0, 3, 9):
+        add_dec(T, "uo_proxyput_badwidth_%d" % w, "UserOp",
+                pre + [C(0x00), C(w)] + [S] * w + lv(1) + lv(1), None)
+    add_dec(T, "uo_reqdirlist_overlong", "UserOp", pre + [C(0x10), C(1), S, C(3), S, S], None)
+    add_dec(T, "uo_sforeport_badwidth", "UserOp",
+            pre + [C(0x45), C(0), C(3), S, S, S, C(1), S, C(1), S, S, S, S], None)
+    add_dec(T, "uo_free_ident", "UserOp", [S] * 7, None, lax=True, accept=False)
+    # the ignored length octet of the four "file store inside a user operation" kinds: any value
+    for (k, mt) in (("ProxyFsReq", 0x02), ("RespFs", 0x08), ("SfoFsReq", 0x44), ("SfoFsResp", 0x46)):
+        body = fsreq(1, 1) if "Req" in k else fsresp(1, 0, 1)
+        add_dec(T, "uo_%s_anylen" % k.lower(), "UserOp", pre + [C(mt), S] + body,
+                pre + [C(mt), C(len(body))] + body)
+    # TLVs
+    tl = [("FsReq", a, b) for (a, b) in ((0, 0), (1, 2), (2, 1), (2, 2))]
+    tl += [("FsResp", a, b, c) for (a, b, c) in ((0, 0, 0), (1, 0, 2), (0, 2, 1), (2, 2, 2))]
+    tl += [("Msg", n) for n in L_Q] + [("Flow", n) for n in L_Q] + [("Fho",)]
+    tl += [("Eid", w) for w in WIDTHS]
+    for t in tl:
+        add_dec(T, "tlv_" + tlv_name(t), "Tlv", tlv(t), tlv(t))
+    for code in (0x03, 0x07, 0xFF):
+        add_dec(T, "tlv_badtype_%02x" % code, "Tlv", [C(code), S, S], None)
+    for wm1 in (2, 4, 5, 6, 8, 0xFE):
+        add_dec(T, "tlv_eid_badwidth_%02x" % wm1, "Tlv", [C(0x06), C(wm1)] + [S] * min(wm1 + 1, 12), None)
+    add_dec(T, "tlv_fsreq_overlong", "Tlv", [C(0x00), S, C(1), S, C(4), S, S], None)
+    # standalone decoders
+    for (a, b) in ((0, 0), (1, 2), (2, 2)):
+        add_dec(T, "fsreq_%d%d" % (a, b), "FsReq", fsreq(a, b), fsreq(a, b))
+    for (a, b, c) in ((0, 0, 0), (1, 2, 1), (2, 2, 2)):
+        add_dec(T, "fsresp_%d%d%d" % (a, b, c), "FsResp", fsresp(a, b, c), fsresp(a, b, c))
+    for n in L_Q:
+        add_dec(T, "flow_%d" % n, "Flow", lv(n), lv(n))
+        add_dec(T, "msg_%d" % n, "Msg", lv(n), lv(n))
+    for we in WIDTHS:
+        for ws in WIDTHS:
+            rep = varid_enc(we) + varid_enc(ws) + [S, S, S]
+            add_dec(T, "report_e%d_s%d" % (we, ws), "Report", rep, rep,
+                    tier="quick" if we == ws or (we, ws) in ((1, 8), (4, 2)) else "thorough")
+    add_dec(T, "report_badwidth", "Report", [C(2), S, S, S, C(0), S, S, S, S], None)
+    for we in WIDTHS:
+        for ws in WIDTHS:
+            for segctl in (0, 1):
+                for seg in (0, 1):
+                    h = header(we, ws, 0, False, "Small", False, seg, segctl)
+                    h[0] = S
+                    h[1] = S
+                    h[2] = S
+                    # CRC flag set and length field < 2 is malformed: guard it out here (it is
+                    # covered by c06_arith hdr_all); canonical otherwise
+                    tier = "quick" if we == ws and segctl == seg else "thorough"
+                    add_dec(T, "hdr_e%d_s%d_c%d_m%d" % (we, ws, segctl, seg), "Header", h, h, tier=tier)
+    # all-free inputs for the flat / shallow decoders
+    add_free(T, "free_report", "Report", 8)
+    add_free(T, "free_tlv", "Tlv", 4, tier="thorough")
+    add_free(T, "free_fsreq", "FsReq", 4, tier="thorough")
+    add_free(T, "free_fsresp", "FsResp", 5, tier="thorough")
+    add_free(T, "free_flow", "Flow", 4)
+    add_free(T, "free_msg", "Msg", 4)
+
+    # ---- whole datagrams -----------------------------------------------------------------------
+    doc_c = ("PDU::decode on whole datagrams (7-octet header with 1-octet identifiers, CRC off "
+             "unless stated; header variety is covered by c06_arith/c06_types/c05_header): "
+             "well-formed layouts, with and without ignored trailing octets; every accepted "
+             "datagram re-encodes (length field recomputed) to something that decodes to the same PDU")
+    doc_b = ("PDU::decode never panics / loops on malformed layouts: every truncation of the "
+             "longest layouts (length field adjusted), unknown / unexpected TLV and directive codes, "
+             "inner lengths exceeding outer ones, bad identifier widths")
+    bound = ("first 4 header octets, directive code, TLV type and length octets enumerated; "
+             "string / body / list lengths in {0,1,2}; all other octets free")
+    classes = ("eof", "finished", "ack", "metadata", "nak", "prompt", "keepalive", "filedata", "misc")
+    for c in classes:
+        family("c06_canon_" + c, "C06", "bounded", bound, doc_c)
+        family("c06_bytes_" + c, "C06", "bounded", bound, doc_b)
+
+    B0 = HL + 1   # wire index of the octet after the directive code
+    for fss in FSS:
+        f = fsz(fss)
+        # EOF
+        base = [C(0x04), S] + [S] * 4 + [S] * f
+        add_pdu("c06_canon_eof", "noerr", fss, base, base, [(B0, 0xF0, 0x00, True)])
+        add_pdu("c06_canon_eof", "noerr_trail2", fss, base + [S, S], base, [(B0, 0xF0, 0x00, True)])
+        for w in WIDTHS:
+            t = base + [C(0x06)] + varid_enc(w)
+            add_pdu("c06_canon_eof", "err_w%d" % w, fss, t, t, [(B0, 0xF0, 0x00, False)])
+        t = base + [C(0x06)] + varid_enc(2) + [S]
+        add_pdu("c06_canon_eof", "err_w2_trail1", fss, t, t[:-1], [(B0, 0xF0, 0x00, False)])
+        for code in (0x01, 0x05, 0x03, 0x6):
+            if code == 0x6:
+                continue
+            add_pdu("c06_bytes_eof", "err_tlvtype_%02x" % code, fss, base + [C(code), C(0), S], None,
+                    [(B0, 0xF0, 0x00, False)])
+        for wm1 in (2, 4, 0xFF):
+            add_pdu("c06_bytes_eof", "err_badwidth_%02x" % wm1, fss,
+                    base + [C(0x06), C(wm1)] + [S] * 9, None, [(B0, 0xF0, 0x00, False)])
+        add_trunc("c06_bytes_eof", "trunc_err_w8", fss, base + [C(0x06)] + varid_enc(8))
+
+        # ACK / Prompt / KeepAlive
+        if fss == "Small":
+            add_pdu("c06_canon_ack", "exact", fss, [C(0x06), S, S], [C(0x06), S, S])
+            add_pdu("c06_canon_ack", "trail2", fss, [C(0x06), S, S, S, S], [C(0x06), S, S])
+            add_trunc("c06_bytes_ack", "trunc", fss, [C(0x06), S, S])
+            add_pdu("c06_canon_prompt", "exact", fss, [C(0x09), S], [C(0x09), S])
+            add_pdu("c06_canon_prompt", "trail1", fss, [C(0x09), S, S], [C(0x09), S])
+            add_trunc("c06_bytes_prompt", "trunc", fss, [C(0x09), S])
+        ka = [C(0x0C)] + [S] * f
+        add_pdu("c06_canon_keepalive", "exact", fss, ka, ka)
+        add_pdu("c06_canon_keepalive", "trail2", fss, ka + [S, S], ka)
+        add_trunc("c06_bytes_keepalive", "trunc", fss, ka)
+
+        # NAK
+        for n in (0, 1, 2, 3):
+            t = payload(fss, ("Nak", n))[0]
+            add_pdu("c06_canon_nak", "n%d" % n, fss, t, t, tier="quick" if n < 3 else "thorough")
+        t = payload(fss, ("Nak", 1))[0]
+        add_trunc("c06_bytes_nak", "trunc_n1", fss, t)
+        add_trunc("c06_bytes_nak", "trunc_n2", fss, payload(fss, ("Nak", 2))[0], tier="thorough")
+
+        # file data
+        for n in (0, 1, 2, 6):
+            t = [S] * (f + n)
+            add_pdu("c06_canon_filedata", "unseg%d" % n, fss, t, t, filedata=True,
+                    tier="quick" if n < 6 else "thorough")
+        add_trunc("c06_bytes_filedata", "trunc_unseg2", fss, [S] * (f + 2), filedata=True)
+        for r in (0, 1, 2, 3):
+            for (m, n) in ((0, 0), (1, 1), (2, 0), (0, 2), (2, 2), (6, 6)):
+                if (m, n) != (1, 1) and r != 1:
+                    continue
+                t = payload(fss, ("Seg", m, n, r))[0]
+                add_pdu("c06_canon_filedata", "seg%d_%d_s%d" % (m, n, r), fss, t, t, filedata=True,
+                        seg=True, tier="quick" if max(m, n) < 6 else "thorough")
+        add_trunc("c06_bytes_filedata", "trunc_seg2_1", fss, payload(fss, ("Seg", 2, 1, 2))[0],
+                  filedata=True, seg=True)
+
+        # Finished (fss does not matter: only under Small)
+        if fss == "Small":
+            def resp(l1, l2, lm, extra=0):
+                body = fsresp(l1, l2, lm)
+                return ([C(0x01), C(len(body) + extra)] + body + [S] * extra,
+                        [C(0x01), C(len(body))] + body)
+
+            def eid(w):
+                return ([C(0x06)] + varid_enc(w),) * 2
+            fin = [C(0x05), S]
+            shapes = {
+                "empty": [],
+                "r102": [resp(1, 0, 2)],
+                "r021": [resp(0, 2, 1)],
+                "r222": [resp(2, 2, 2)],
+                "r000_x2": [resp(0, 0, 0, 2)],
+                "r110_r011": [resp(1, 1, 0), resp(0, 1, 1)],
+                "r000_r000_r000": [resp(0, 0, 0)] * 3,
+            }
+            for nm, items in shapes.items():
+                w = fin + [o for it in items for o in it[0]]
+                c = fin + [o for it in items for o in it[1]]
+                add_pdu("c06_canon_finished", nm, fss, w, c)
+                for wd in WIDTHS:
+                    if nm not in ("empty", "r102") and wd not in (2,):
+                        continue
+                    e = eid(wd)
+                    add_pdu("c06_canon_finished", nm + "_w%d" % wd, fss, w + e[0], c + e[1],
+                            [(B0, 0xF0, 0x00, False)])
+            # fault location first / twice: accepted, canonical form has it last / once
+            r = resp(1, 0, 1)
+            add_pdu("c06_canon_finished", "w2_then_r101", fss, fin + eid(2)[0] + r[0],
+                    fin + r[1] + eid(2)[1], [(B0, 0xF0, 0x00, False)])
+            add_pdu("c06_canon_finished", "w1_w4", fss, fin + eid(1)[0] + eid(4)[0],
+                    fin + eid(4)[1], [(B0, 0xF0, 0x00, False)])
+            # malformed
+            add_pdu("c06_bytes_finished", "noerr_with_eid", fss, fin + eid(2)[0], None,
+                    [(B0, 0xF0, 0x00, True)])
+            for code in (0x00, 0x02, 0x04, 0x05, 0x03, 0x07, 0xFF):
+                add_pdu("c06_bytes_finished", "tlvtype_%02x" % code, fss, fin + [C(code), C(1), S], None)
+            add_pdu("c06_bytes_finished", "resp_outer_short", fss,
+                    fin + [C(0x01), C(3), S, C(2), S], None)
+            add_pdu("c06_bytes_finished", "resp_outer_overruns", fss,
+                    fin + [C(0x01), C(9), S, C(0), C(0), C(0)], None)
+            add_pdu("c06_bytes_finished", "resp_inner_overlong", fss,
+                    fin + [C(0x01), C(4), S, C(0), C(0), C(5)], None)
+            add_pdu("c06_bytes_finished", "resp_len0", fss, fin + [C(0x01), C(0)], None)
+            for wm1 in (2, 6, 0xFF):
+                add_pdu("c06_bytes_finished", "eid_badwidth_%02x" % wm1, fss,
+                        fin + [C(0x06), C(wm1)] + [S] * 8, None)
+            w = fin + resp(1, 1, 1)[0] + eid(2)[0]
+            add_trunc("c06_bytes_finished", "trunc_r111_w2", fss, w)
+            w = fin + resp(0, 0, 0)[0] + resp(2, 0, 0)[0]
+            add_trunc("c06_bytes_finished", "trunc_r000_r200", fss, w)
+
+        # Metadata
+        def meta(ls, ld, opts):
+            return payload(fss, ("Meta", ls, ld, opts))[0]
+        mshapes = [(0, 0, ()), (1, 2, ()), (2, 1, (("Msg", 1),)), (1, 1, (("Fho",),)),
+                   (1, 0, (("Flow", 2),)), (0, 1, (("Eid", 4),)), (1, 1, (("FsReq", 1, 1),)),
+                   (1, 1, (("FsResp", 1, 0, 1),)), (1, 1, (("Msg", 2), ("Fho",))),
+                   (0, 0, (("Flow", 1), ("Eid", 2), ("Msg", 0)))]
+        for (ls, ld, o) in mshapes:
+            if fss == "Large" and len(o) > 1:
+                continue
+            t = meta(ls, ld, o)
+            add_pdu("c06_canon_metadata", pl_name(("Meta", ls, ld, o)), fss, t, t)
+        m0 = meta(1, 1, ())
+        for code in (0x03, 0x07, 0xFF):
+            add_pdu("c06_bytes_metadata", "tlvtype_%02x" % code, fss, m0 + [C(code), S], None)
+        add_pdu("c06_bytes_metadata", "eid_badwidth", fss, m0 + [C(0x06), C(2), S, S, S], None)
+        add_pdu("c06_bytes_metadata", "name_overlong", fss,
+                [C(0x07), S] + [S] * f + [C(1), S, C(9), S, S], None)
+        add_pdu("c06_bytes_metadata", "msg_overlong", fss, m0 + [C(0x02), C(3), S], None)
+        add_trunc("c06_bytes_metadata", "trunc_1_1_msg1_fho", fss, meta(1, 1, (("Msg", 1), ("Fho",))))
+        add_trunc("c06_bytes_metadata", "trunc_2_0_fsreq11", fss, meta(2, 0, (("FsReq", 1, 1),)),
+                  tier="thorough")
+
+        # misc: unknown directive codes, empty payloads
+        for code in (0x00, 0x03, 0x0A, 0x0B, 0x0D, 0xFF):
+            add_pdu("c06_bytes_misc", "directive_%02x" % code, fss, [C(code), S, S], None,
+                    tier="quick" if fss == "Small" else "thorough")
+    add_pdu("c06_bytes_misc", "directive_empty", "Small", [], None)
+    add_pdu("c06_bytes_misc", "filedata_empty", "Small", [], None, filedata=True)
+    add_pdu("c06_bytes_misc", "segdata_empty", "Large", [], None, filedata=True, seg=True)
+    # CRC flag set, length field 0 / 1  (header.rs:395)
+    for field in (0, 1):
+        w = header(1, 1, 0, True, "Small", False, False)
+        w[1] = C(0)
+        w[2] = C(field)
+        add_dec("c06_bytes_misc", "crc_lenfield_%d" % field, "Pdu", w + [S, S, S], None)
+    # datagram shorter than its length field says
+    w = header(1, 1, 9, False, "Small", False, False) + [C(0x06), S, S]
+    add_dec("c06_bytes_misc", "short_datagram", "Pdu", w, None)
+    # wider identifiers at datagram level
+    for (we, ws) in ((2, 4), (8, 8), (4, 1)):
+        t = [C(0x06), S, S]
+        w, c = dgram("Small", t, t, we=we, ws=ws)
+        add_dec("c06_canon_misc", "ack_e%d_s%d" % (we, ws), "Pdu", w, c)
+    for (we, ws) in ((3, 1), (1, 6), (7, 7)):
+        w = [C(0x20), C(0), C(3), C(((we - 1) << 4) | (ws - 1))] + [S] * (2 * we + ws) + [C(0x06), S, S]
+        add_dec("c06_bytes_misc", "badwidth_e%d_s%d" % (we, ws), "Pdu", w, None)
+    # CRC on: acceptance requires the CRC to match
+    for (nm, p) in (("ack", [C(0x06), S, S]), ("eof_noerr", [C(0x04), C(0x00)] + [S] * 8),
+                    ("prompt", [C(0x09), S])):
+        w, c = dgram("Small", p, p, crc=True)
+        add_dec("c06_canon_misc", "crc_" + nm, "Pdu", w, c)
+    w, c = dgram("Small", [S] * 5, [S] * 5, crc=True, filedata=True)
+    add_dec("c06_canon_misc", "crc_unseg1", "Pdu", w, c)
+    add_trunc("c06_bytes_misc", "crc_trunc_ack", "Small", [C(0x06), S, S], crc=True)
+    for c in classes:
+        for k in ("c06_canon_", "c06_bytes_"):
+            if not any(h["family"] == k + c for h in HARNESSES):
+                del FAMILIES[k + c]
+
+
+# ================================================================================================
+# Emission
+# ================================================================================================
+STUBS = [("core::str::from_utf8", "crate::util::from_utf8_stub")]
+
+
+def emit():
+    hs = []
+    ds = []
+    hs.append("// @generated by /verif/kani/gen.py -- do not edit\n"
+              "#![allow(non_snake_case)]\n")
+    for h in HARNESSES:
+        stubs = "".join("    #[kani::stub(%s, %s)]\n" % s for s in STUBS)
+        hs.append("#[kani::proof]\n#[kani::unwind(%d)]\n%sfn %s() {\n"
+                  "    let b: [u8; %d] = kani::any();\n"
+                  "    let o = crate::dispatch::call_%s(&b);\n"
+                  "    kani::cover!(o.is_pass(), \"check body reached its end\");\n%s}\n"
+                  % (h["unwind"], stubs.replace("    #", "#"), h["name"], h["K"], h["name"],
+                     "    kani::cover!(o.accepted(), \"a decoder accepted\");\n" if h["accept"] else ""))
+    ds.append("// @generated by /verif/kani/gen.py -- do not edit\n"
+              "#![allow(non_snake_case, unused_imports, clippy::all)]\n"
+              "use crate::checks::{self, Dec, Fss, Pl, Tlv, Uo};\nuse crate::util::Outcome;\n")
+    for h in HARNESSES:
+        ds.append("pub fn call_%s(b: &[u8]) -> Outcome {\n    %s\n}\n" % (h["name"], h["call"]))
+    ds.append("/// (harness name, number of input octets)\npub const HARNESSES: &[(&str, usize)] = &[")
+    for h in HARNESSES:
+        ds.append('    ("%s", %d),' % (h["name"], h["K"]))
+    ds.append("];\n")
+    ds.append("pub fn run(name: &str, b: &[u8]) -> Option<Outcome> {\n    Some(match name {")
+    for h in HARNESSES:
+        ds.append('        "%s" => call_%s(b),' % (h["name"], h["name"]))
+    ds.append("        _ => return None,\n    })\n}\n")
+    table = dict(families=FAMILIES, harnesses=HARNESSES, stubs=STUBS)
+    outs = {"harnesses.rs": "\n".join(hs), "dispatch.rs": "\n".join(ds),
+            "table.json": json.dumps(table, indent=1)}
+    for fn, txt in outs.items():
+        p = os.path.join(SRC, fn)
+        old = open(p).read() if os.path.exists(p) else None
+        if old != txt:
+            with open(p, "w") as f:
+                f.write(txt)
+    return table
+
+
+def build_table():
+    if not HARNESSES:
+        gen_c05()
+        gen_c06()
+    return dict(families=FAMILIES, harnesses=HARNESSES, stubs=STUBS)
+
+
+if __name__ == "__main__":
+    build_table()
+    t = emit()
+    by = {}
+    for h in t["harnesses"]:
+        k = (h["family"], h["tier"])
+        by[k] = by.get(k, 0) + 1
+    for f in t["families"]:
+        print("%-22s %-8s quick=%-4d thorough=+%d" % (f, t["families"][f]["kind"],
+                                                     by.get((f, "quick"), 0), by.get((f, "thorough"), 0)))
+    print("total", len(t["harnesses"]))
